@@ -39,7 +39,18 @@ unital_iff_col '''.split() + [
     'FFVerif.C10.cumulant_uses_antisymmetric_part', 'FFVerif.C10.cumulant_single_qubit_uses_antisymmetric_part', 'FFVerif.C10.cumulant_second_order_from_antisymmetric_part',
     'FFVerif.C10.frequency_shifts_hermitian_part', 'FFVerif.C10.frequency_shifts_symmetric_part']
 LEAN_MODULES = ['FFVerif.Props.C09', 'FFVerif.Props.C09Exp', 'FFVerif.Props.C09cCP', 'FFVerif.Props.C09EtmCP',
-                'FFVerif.Props.C09EtmCPLiou', 'FFVerif.Props.C09EtmChoi', 'FFVerif.Props.C10Shifts']
+                'FFVerif.Props.C09EtmCPLiou', 'FFVerif.Props.C09EtmChoi', 'FFVerif.Props.C10Shifts',
+                'FFVerif.Props.C09EtmFn', 'FFVerif.Props.C09EtmFnShapes']
+# module C09EtmFn (model EtmFn = error_transfer_matrix up to the expm oracle + the top of calculate_cumulant_function):
+# what is exponentiated, both input modes agree, branch selection, rejections, and the end-to-end statement
+THEOREMS = THEOREMS + ['FFVerif.C09.shortcutTaken_iff', 'FFVerif.C09.cumulant_branch_selection',
+                       'FFVerif.C09.etmFn_arg_is_sum_of_cumulants', 'FFVerif.C09.etmFn_modes_agree',
+                       'FFVerif.C09.cumulantFromPulse_ok', 'FFVerif.C09.etmFn_rejects_iff',
+                       'FFVerif.C09.error_transfer_matrix_physical'] + ['FFVerif.C09.' + t for t in '''
+etmFn_arg_is_sum_of_cumulants_single etmFn_arg_is_sum_of_cumulants_cross etm_physical_of_sum
+error_transfer_matrix_physical_single error_transfer_matrix_physical_cross cumulantFunction_rejects_iff
+decay_amplitudes_posSemidef summed_decay_amplitudes_posSemidef error_transfer_matrix_physical_of_nonneg_spectrum
+error_transfer_matrix_physical_of_nonneg_spectrum_single'''.split()]
 PINS = ['pinBasisArrayFinalize', 'pinFourElementTraces', 'pinErrorTransferMatrix', 'C09_cumulant_source_shape']
 GEN_SITES = ['einsum:numeric_calculate_cumulant_function_', 'einsum:basis_Basis_four_element_traces_',
              'const:numeric.calculate_cumulant_function']
@@ -80,6 +91,9 @@ def formula_K(C, Gamma, Delta=None):
 def correspondence(ctx):
     # the CP / cCP tests themselves (projector, projected Choi matrix, default tolerance, verdict)
     corr_script(ctx, 'corr_c09ccp', ['projq', 'projchoi', 'cpverdict', 'end-to-end verdict'])
+    # error_transfer_matrix / calculate_cumulant_function as functions of their arguments (the argument handed to
+    # expm is captured) vs the model EtmFn
+    corr_script(ctx, 'corr_c09etmfn', [])
     rng = ctx.rng('corr')
     lines, refs, comp = [], [], []
     for i in range(6 if ctx.tier == 'quick' else 40):
